@@ -14,42 +14,95 @@ import (
 
 func runC01W4(c *Ctx) {
 	n := 0
+	isKVQuery := func(call *ssa.Call) bool {
+		if _, isQ := blockingQueryParam(call.Call.StaticCallee()); isQ {
+			return true
+		}
+		n := calleeName(&call.Call)
+		if strings.HasPrefix(n, "(*"+apiPkg+".KV).") {
+			return true
+		}
+		if sc := call.Call.StaticCallee(); sc != nil && isRepoFn(sc) {
+			return mayExec(unwrap(sc), func(j ssa.Instruction) bool {
+				jc := callCommon(j)
+				return jc != nil && strings.HasPrefix(calleeName(jc), "(*"+apiPkg+".KV).")
+			}, 0)
+		}
+		return false
+	}
+	// sent: the text instruction in publishes: a send, or the call of a helper that sends its parameter on every path
+	sent := func(in ssa.Instruction) ssa.Value {
+		isStr := func(v ssa.Value) bool {
+			bt, isB := v.Type().Underlying().(*types.Basic)
+			return isB && bt.Kind() == types.String
+		}
+		switch x := in.(type) {
+		case *ssa.Send:
+			if isStr(x.X) {
+				return x.X
+			}
+		case *ssa.Call:
+			sc := x.Call.StaticCallee()
+			if sc == nil || !isRepoFn(sc) || len(sc.Blocks) == 0 {
+				return nil
+			}
+			sc = unwrap(sc)
+			for k, par := range sc.Params {
+				if k >= len(x.Call.Args) || !isStr(par) {
+					continue
+				}
+				par := par
+				if mustExec(sc, func(j ssa.Instruction) bool {
+					s, ok := j.(*ssa.Send)
+					return ok && derives(s.X, func(v ssa.Value) bool { return v == ssa.Value(par) })
+				}, 0) {
+					return x.Call.Args[k]
+				}
+			}
+		}
+		return nil
+	}
 	for _, f := range c.fnsWhere("registry/consul", func(*ssa.Function) bool { return true }) {
-		for _, l := range condLessLoops(f) {
-			// the send of a text in this loop, and the Consul KV query it derives from: a wrapper around a blocking query
+		// the units: the condition-less loops of f, and f itself (one round per call: `for { k.poll() }`) for what is not
+		// inside such a loop
+		loops := condLessLoops(f)
+		inLoop := func(b *ssa.BasicBlock) bool {
+			for _, l := range loops {
+				if l.Body[b] {
+					return true
+				}
+			}
+			return false
+		}
+		units := append([]*loop{}, loops...)
+		units = append(units, nil)
+		for _, l := range units {
+			inUnit := func(b *ssa.BasicBlock) bool {
+				if l != nil {
+					return l.Body[b]
+				}
+				return !inLoop(b)
+			}
+			// the send of a text in this unit, and the Consul KV query it derives from: a wrapper around a blocking query
 			// (found by role) or the api call itself
 			var query *ssa.Call
-			var send *ssa.Send
-			isKVQuery := func(call *ssa.Call) bool {
-				if _, isQ := blockingQueryParam(call.Call.StaticCallee()); isQ {
-					return true
+			var send ssa.Instruction
+			for _, b := range f.Blocks {
+				if !inUnit(b) {
+					continue
 				}
-				n := calleeName(&call.Call)
-				if strings.HasPrefix(n, "(*"+apiPkg+".KV).") {
-					return true
-				}
-				if sc := call.Call.StaticCallee(); sc != nil && isRepoFn(sc) {
-					return mayExec(unwrap(sc), func(j ssa.Instruction) bool {
-						jc := callCommon(j)
-						return jc != nil && strings.HasPrefix(calleeName(jc), "(*"+apiPkg+".KV).")
-					}, 0)
-				}
-				return false
-			}
-			for b := range l.Body {
 				for _, in := range b.Instrs {
-					s, ok := in.(*ssa.Send)
-					if !ok {
+					sx := sent(in)
+					if sx == nil {
 						continue
 					}
-					bt, isB := s.X.Type().Underlying().(*types.Basic)
-					if !isB || bt.Kind() != types.String {
-						continue
-					}
-					for b2 := range l.Body {
+					for _, b2 := range f.Blocks {
+						if !inUnit(b2) {
+							continue
+						}
 						for _, in2 := range b2.Instrs {
-							if call, ok := in2.(*ssa.Call); ok && isKVQuery(call) && derives(s.X, func(x ssa.Value) bool { return x == ssa.Value(call) }) {
-								query, send = call, s
+							if call, ok := in2.(*ssa.Call); ok && in2 != in && isKVQuery(call) && derives(sx, func(x ssa.Value) bool { return x == ssa.Value(call) }) {
+								query, send = call, in
 							}
 						}
 					}
@@ -58,41 +111,142 @@ func runC01W4(c *Ctx) {
 			if query == nil || send == nil {
 				continue
 			}
+			n++
 			isText := func(v ssa.Value) bool {
 				b, ok := v.Type().Underlying().(*types.Basic)
-				return ok && b.Kind() == types.String && derives(v, func(x ssa.Value) bool { return x == ssa.Value(query) })
+				return ok && b.Kind() == types.String && derives(v, func(x ssa.Value) bool {
+					call, ok := x.(*ssa.Call)
+					return ok && (x == ssa.Value(query) || isKVQuery(call))
+				})
 			}
-			n++
-			// from the query, the loop head must not be reachable without the send, except over the error edge and over
-			// an edge on which the new text is known to equal the text published last (a loop-carried string)
-			cut := func(pred, succ *ssa.BasicBlock) bool {
-				for _, ft := range edgeFacts(pred, succ) {
-					b, ok := ft.Cond.(*ssa.BinOp)
-					if !ok {
-						continue
-					}
-					// err != nil
-					if (b.Op == token.NEQ && ft.Truth || b.Op == token.EQL && !ft.Truth) && (isNilConst(b.Y) || isNilConst(b.X)) {
-						other := b.X
-						if isNilConst(b.X) {
-							other = b.Y
-						}
-						if derives(other, func(x ssa.Value) bool { return x == query }) {
+			fromQuery := func(v ssa.Value) bool {
+				return derives(v, func(x ssa.Value) bool {
+					call, ok := x.(*ssa.Call)
+					return ok && (x == ssa.Value(query) || isKVQuery(call))
+				})
+			}
+			// isLast: the text published last: a variable carried by a loop, or a memory cell that outlives a round (a
+			// field of the watcher's state, a captured variable) into which the text of a reply is stored
+			isLast := func(v ssa.Value) bool {
+				if phi, ok := v.(*ssa.Phi); ok {
+					for _, lp := range loopsOf(phi.Parent()) {
+						if lp.Head == phi.Block() {
 							return true
 						}
 					}
-					// text == last
-					if (b.Op == token.EQL && ft.Truth || b.Op == token.NEQ && !ft.Truth) && (isText(b.X) || isText(b.Y)) {
-						other := b.X
-						if isText(b.X) {
-							other = b.Y
+					return false
+				}
+				ld, ok := v.(*ssa.UnOp)
+				if !ok || ld.Op != token.MUL {
+					return false
+				}
+				t := c01TracerOf(ld.Parent())
+				if t == nil {
+					return false
+				}
+				for _, loc := range t.locsOf(ld.X, nil) {
+					if !loc.known() {
+						continue
+					}
+					if a, ok := loc.root.(*ssa.Alloc); ok {
+						fresh := false
+						if l != nil {
+							fresh = c01FreshPerRound(a, l, nil)
+						} else {
+							fresh = c01FreshPerRound(a, nil, f)
 						}
-						if phi, ok := other.(*ssa.Phi); ok && phi.Block() == l.Head {
+						if fresh || (ld.Parent() != f && c01FreshPerRound(a, nil, ld.Parent())) {
+							continue
+						}
+					}
+					for _, st := range t.storesInto(loc.root, loc.path) {
+						if isText(st.Val) {
 							return true
 						}
 					}
 				}
 				return false
+			}
+			// a fact under which dropping the reply is legitimate
+			legit := func(ft Fact) bool {
+				b, ok := ft.Cond.(*ssa.BinOp)
+				if !ok {
+					return false
+				}
+				// err != nil
+				if (b.Op == token.NEQ && ft.Truth || b.Op == token.EQL && !ft.Truth) && (isNilConst(b.Y) || isNilConst(b.X)) {
+					other := b.X
+					if isNilConst(b.X) {
+						other = b.Y
+					}
+					if typeStr(other.Type()) == "error" && fromQuery(other) {
+						return true
+					}
+				}
+				// text == last
+				if (b.Op == token.EQL && ft.Truth || b.Op == token.NEQ && !ft.Truth) && (isText(b.X) || isText(b.Y)) {
+					other := b.X
+					if isText(b.X) && !isLast(b.X) {
+						other = b.Y
+					}
+					if isLast(other) {
+						return true
+					}
+				}
+				return false
+			}
+			// from the query, the loop head must not be reachable without the send, except over the error edge and over
+			// an edge on which the new text is known to equal the text published last; the edge may also carry the
+			// verdict of a helper (`value, ok := k.next()`): then every way the helper can give that verdict must be legitimate
+			cut := func(pred, succ *ssa.BasicBlock) bool {
+				for _, ft := range edgeFacts(pred, succ) {
+					if legit(ft) {
+						return true
+					}
+				}
+				ef, ok := c01EdgeFact(pred, succ)
+				if !ok {
+					return false
+				}
+				var call *ssa.Call
+				k := 0
+				switch x := ef.Cond.(type) {
+				case *ssa.Call:
+					call = x
+				case *ssa.Extract:
+					call, _ = x.Tuple.(*ssa.Call)
+					k = x.Index
+				}
+				if call == nil {
+					return false
+				}
+				sc := call.Call.StaticCallee()
+				if sc == nil || !isRepoFn(sc) || len(sc.Blocks) == 0 {
+					return false
+				}
+				var points [][]Fact
+				eachInstr(sc, func(i ssa.Instruction) {
+					if r, ok := i.(*ssa.Return); ok && k < len(r.Results) {
+						if bt, ok := r.Results[k].Type().Underlying().(*types.Basic); ok && bt.Kind() == types.Bool {
+							points = append(points, c01Points(r.Results[k], r.Block(), ef.Truth, 1)...)
+						}
+					}
+				})
+				if len(points) == 0 {
+					return false
+				}
+				for _, pt := range points {
+					good := false
+					for _, ft := range pt {
+						if legit(ft) {
+							good = true
+						}
+					}
+					if !good {
+						return false
+					}
+				}
+				return true
 			}
 			skip := false
 			type item struct {
@@ -106,9 +260,12 @@ func runC01W4(c *Ctx) {
 				stack = stack[:len(stack)-1]
 				blocked := false
 				for k := it.idx; k < len(it.b.Instrs); k++ {
-					if it.b.Instrs[k] == ssa.Instruction(send) {
+					if it.b.Instrs[k] == send {
 						blocked = true
 						break
+					}
+					if _, isRet := it.b.Instrs[k].(*ssa.Return); isRet && l == nil {
+						skip = true
 					}
 				}
 				if blocked {
@@ -118,9 +275,9 @@ func runC01W4(c *Ctx) {
 					if cut(it.b, sx) {
 						continue
 					}
-					if sx == l.Head {
+					if l != nil && sx == l.Head {
 						skip = true
-					} else if l.Body[sx] && !seen[sx] {
+					} else if inUnit(sx) && !seen[sx] {
 						seen[sx] = true
 						stack = append(stack, item{sx, 0})
 					}
